@@ -299,6 +299,13 @@ def _run_swap(ctx, spec, rng):
         a, b = rng.integers(-3, 4, size=d), rng.integers(-3, 4, size=d2)
         ctx.check("O5:swap_operator", np.array_equal(np.asarray(so2) @ np.kron(a, b), np.kron(b, a)), sig=("action", d, d2),
                   mech="swap_operator:action", detail={"d": [d, d2]})
+    for dimarg in (d, [d, d2]):  # the sparse flag: the same operator
+        sp = ctx.call(swap_operator, dimarg, True)
+        if sp is not ctx_failed():
+            dd = [d, d] if isinstance(dimarg, int) else [d, d2]
+            got_sp = sp.toarray() if hasattr(sp, "toarray") else np.asarray(sp)
+            ctx.check("O5:swap_operator", got_sp.shape == (dd[0] * dd[1],) * 2 and np.array_equal(got_sp, ref.perm_matrix(dd, [1, 0])), sig=("sparse", dd[0], dd[1]),
+                      mech="swap_operator:matrix[is_sparse]", detail={"d": dd})
 
 
 def _run_permop(ctx, spec, rng):
